@@ -30,6 +30,12 @@ fn c15_lemma_prod_bound(p: R, q: R, l: R) {
     vassert("p q >= l^2", p * q >= l * l);
     vcover("end");
 }
+fn c15_lemma_abs_le(d: R, mag: R, c2: R) {
+    // c2 = mag^2 - d^2 is a squared length, mag >= 0  =>  |d| <= mag
+    vassume(c2 >= R(0.0)); vassume_eq(c2, mag * mag - d * d); vassume(mag >= R(0.0));
+    vassert("|d| <= mag", (d <= mag) & (d >= -mag));
+    vcover("end");
+}
 fn c15_lemma_sqrt_bound(m: R, p: R, lo: R) {
     // m = sqrt(p), p >= lo^2, lo >= 0  =>  m >= lo
     vassume(m >= R(0.0)); vassume_eq(m * m, p); vassume(lo >= R(0.0)); vassume(p >= lo * lo);
@@ -171,6 +177,8 @@ fn c15_from_arc_general(src: Vector3<R>, dst: Vector3<R>, fb: Vector3<R>) {
     vlemma_eq("mag^2 = |src|^2 |dst|^2", mag * mag, src.magnitude2() * dst.magnitude2());
     vlemma("mag > 0", mag > R(0.0));
     vlemma_eq("lagrange: |src x dst|^2 = mag^2 - d^2", c.magnitude2(), mag * mag - d * d);
+    vlemma("|src x dst|^2 >= 0", c.magnitude2() >= R(0.0));
+    c15_lemma_abs_le(d, mag, c.magnitude2());
     vlemma("|d| <= mag", (d <= mag) & (d >= -mag));
     vlemma("d != -mag", d != -mag);
     let h = Quaternion::from_sv(mag + d, c);
@@ -194,6 +202,8 @@ fn c15_from_arc_maps(src: Vector3<R>, dst: Vector3<R>) {
     vlemma_eq("mag^2 = |src|^2 |dst|^2", mag * mag, src.magnitude2() * dst.magnitude2());
     vlemma("mag > 0", mag > R(0.0));
     vlemma_eq("lagrange: |src x dst|^2 = mag^2 - d^2", c.magnitude2(), mag * mag - d * d);
+    vlemma("|src x dst|^2 >= 0", c.magnitude2() >= R(0.0));
+    c15_lemma_abs_le(d, mag, c.magnitude2());
     vlemma("|d| <= mag", (d <= mag) & (d >= -mag));
     vlemma("d != -mag", d != -mag);
     let h = Quaternion::from_sv(mag + d, c);
@@ -232,6 +242,8 @@ fn c15_from_arc_parallel_tolerance(src: Vector3<R>, dst: Vector3<R>) {
     c15_lemma_sqrt_bound(mag, mag * mag, R(1e-6));
     vlemma("mag >= 1e-6", mag >= R(1e-6));
     vlemma_eq("lagrange", src.cross(dst).magnitude2(), mag * mag - d * d);
+    vlemma("|src x dst|^2 >= 0", src.cross(dst).magnitude2() >= R(0.0));
+    c15_lemma_abs_le(d, mag, src.cross(dst).magnitude2());
     vlemma("|d| <= mag", (d <= mag) & (d >= -mag));
     if ulps(d, mag) { vcover("parallel path"); vassert("cos(angle) >= cos(1e-4)", d >= mag * R(COS_1E4_UP)); }
     if ulps(d, -mag) { vcover("antiparallel path"); vassert("cos(angle) <= -cos(1e-4)", d <= -(mag * R(COS_1E4_UP))); }
